@@ -634,5 +634,13 @@ impl Vm {
     }
 }
 
+/// Verification hook (cargo feature `verif-hooks`): execute exactly one instruction. Add-only.
+#[cfg(feature = "verif-hooks")]
+impl Vm {
+    pub fn verif_step(&mut self) -> Result<bool, Error> {
+        self.run_one()
+    }
+}
+
 #[cfg(test)]
 mod tests {}
